@@ -14,9 +14,9 @@ from . import lib_yamlmerge as L
 PROPS = ['PGA.Props.C18']
 GEN = ['YamlUnits']
 OBLIGATIONS = ['PGA.YamlFormat.' + t for t in [
-    'C18_roundtrip_nd', 'C18_roundtrip_nd_exact', 'C18_roundtrip_values_exact', 'C18_roundtrip_dimensional',
-    'C18_dimensional_six_digits', 'C18_temperatures_six_digits', 'C18_keys_are_present_data', 'C18_zero_values_emitted',
-    'C18_format_total']]
+    'C18_format_total', 'C18_keys_are_present_data', 'C18_zero_values_emitted', 'C18_roundtrip_dimensional',
+    'C18_roundtrip_values_exact', 'C18_roundtrip_nd', 'C18_roundtrip_nd_exact', 'C18_temperatures_six_digits',
+    'C18_dimensional_six_digits']]
 RULE = ('a case = one correlation (0-15 heat-capacity points; reference enthalpy/entropy present/absent/zero/negative/tiny/huge; '
         'range present/absent; Python and NumPy float types; temperatures with up to 6 or with more significant digits) x one '
         'choice of output units (none = non-dimensional; any subset of enthalpy/entropy/heat-capacity units; temperature in K or a '
